@@ -173,6 +173,19 @@ pub open spec fn concrete<'a>(u: NodeUpdateDelayed, v: Option<u64>) -> NodeUpdat
 }
 
 impl<F: FnMut(NodeUpdate<&u64>)> OnUpdateHandler<F> {
+//@extract fn OnUpdateHandler::new
+//@ file: src/node_update.rs
+//@ impl: impl<T: 'static> OnUpdateHandler<T>
+//@ name: new
+//@ as: fn new(created_at: StabilisationNum, handler_fn: F) -> (r: Self)
+//@ rule R5: `Previously::NeverBeenUpdated.into()` => `Previously::NeverBeenUpdated` x1
+//@ props: C09
+//@ contract:
+//@|     ensures
+//@|         r.previous_update_kind is NeverBeenUpdated, // [a-new-subscription-has-seen-nothing-so-its-first-message-is-Initialised]
+//@|         r.created_at == created_at && r.handler_fn == handler_fn, // [stamped-with-its-creation-time]
+//@end
+
 //@extract fn OnUpdateHandler::really_run_downcast
 //@ file: src/node_update.rs
 //@ impl: impl<T: 'static> OnUpdateHandler<T>
